@@ -307,6 +307,14 @@ func (x *Exec) doInvoke(fr *Frame, st *State, recv *Term, recvT types.Type, m *t
 	}
 	// in-package interfaces: case split over implementers
 	if x.isMainIface(recvT, m) {
+		if con := x.prog.Cons.ByKey[itName+"."+name]; con != nil && con.Iface {
+			// an interface contract that every implementation is checked to refine (refines-pre / refines-post
+			// obligations of the implementations): one call, no case split over the dynamic type
+			if ct, ok := x.tagIfNonNil(recv); !ok || func() bool { _, lit := intVal(ct); return !lit }() {
+				x.ifaceUsedCon[itName+"."+name]++
+				return x.applyIfaceContract(fr, st, con, recv, recvT, m, args, sig)
+			}
+		}
 		return x.invokeSplit(fr, st, recv, recvT, m, args, sig)
 	}
 	if con := x.prog.Cons.ByKey[itName+"."+name]; con != nil {
@@ -486,7 +494,22 @@ func (x *Exec) applyIfaceContract(fr *Frame, st *State, con *Contract, recv *Ter
 		g := x.evalBool(mkEnv(st, nil), c.Expr)
 		x.oblige(fr, st, "pre", fmt.Sprintf("%s:%d", con.Key, c.Ord), c.Tags, g, "precondition of "+con.Key+": "+c.Text)
 	}
-	if con.ModAll {
+	if con.Effects == "validation" {
+		rp := x.tt.Sel("v-p", "vptr", "Int", recv)
+		x.addFact(x.tt.Implies(x.tt.Not(x.tt.Eq(rp, x.tt.IntLit(0))), x.descT(rp, rp)))
+		// implicit precondition of every validator method: the receiver is live
+		red := x.heap(st, "G$redeemed", arraySort("Int", "Bool"))
+		x.oblige(fr, st, "pre", con.Key+":live-recv", []string{"C04", "C05", "C11"}, x.tt.Not(x.tt.Select(red, rp)), "receiver of "+con.Key+" must be live (not redeemed)")
+		x.checkCallEffects(fr, st, pre, rp, con.Key)
+		x.noWriteCheck++
+		x.applyValidationEffects(st, pre, rp)
+		x.restoreSelf(fr, st, pre, rp, con.Key)
+		x.noWriteCheck--
+		env := mkEnv(pre, nil)
+		for _, mm := range con.Modifies {
+			x.havocLvalue(env, st, mm)
+		}
+	} else if con.ModAll {
 		x.havocAll(st)
 	} else {
 		env := mkEnv(pre, nil)
@@ -498,6 +521,10 @@ func (x *Exec) applyIfaceContract(fr *Frame, st *State, con *Contract, recv *Ter
 		pb := x.tt.Fresh("panics$"+con.Key, "Bool")
 		ps := st.clone()
 		ps.pc = x.tt.And(st.pc, pb)
+		for _, c := range con.PanicEnsures {
+			x.curPC = ps.pc
+			x.addFact(x.evalBool(mkEnv(ps, nil), c.Expr))
+		}
 		fr.panics = append(fr.panics, ps)
 		st.pc = x.tt.And(st.pc, x.tt.Not(pb))
 		x.curPC = st.pc
@@ -506,6 +533,12 @@ func (x *Exec) applyIfaceContract(fr *Frame, st *State, con *Contract, recv *Ter
 	var results []Value
 	for i := 0; i < res.Len(); i++ {
 		results = append(results, x.fresh(fmt.Sprintf("r$%s.%d", con.Key, i), res.At(i).Type()))
+	}
+	for i, rv := range results {
+		x.assumeExisting(st, rv, res.At(i).Type())
+		if rt, ok := rv.(*Term); ok && rt.Sort == "Int" && x.topEffects() && !x.quiet && len(x.prog.Cons.ValidatorTypes) > 0 {
+			x.addFact(x.frameSoFar(x.topFrame, pre, rt))
+		}
 	}
 	for _, c := range con.Ensures {
 		x.addFact(x.evalBool(mkEnv(st, results), c.Expr))
